@@ -57,6 +57,13 @@ def gen_sources(tier, seed):
             if not text.startswith("halt"):
                 text = "halt\n" + text
         srcs.append((feat, text, "random"))
+    # what a file may BEGIN with: interpreter lines, byte-order marks, comment styles of other languages, control characters - in
+    # front of a program that is valid from the first line break on; whatever lace makes of such a beginning, every sub-command
+    # must make the same of it
+    for first in ("#!/usr/bin/env lace", "#!", "#! halt", "#", "# comment", "//", "// x", "/* x */", "--", "%", "!", "@", "$", "'", "`", "\ufeff", "\ufeff; c",
+                  ";;", ";!", "\x0c", "\x00", "\x1a", "\t", " ", "\r", "#!\r", "<?xml?>", "{", "}", "\\", "~", "^", "&", "*", "(", ")", "=", "+", "|", "<", ">", "?", "."):
+        srcs.append((0, first + "\nhalt\n", "first-line"))
+        srcs.append((0, first + " halt\n", "first-line"))
     return srcs
 
 
